@@ -83,7 +83,7 @@ func ruleCandleUpdate(c *Ctx) {
 	if s.Type.Params != nil {
 		for _, f := range s.Type.Params.List {
 			if _, ok := f.Type.(*ast.Ellipsis); ok && len(f.Names) == 1 {
-				pricesObj = info.ObjectOf(f.Names[0])
+				pricesObj = objOf(info, f.Names[0])
 			}
 		}
 	}
@@ -123,7 +123,7 @@ func ruleCandleUpdate(c *Ctx) {
 	timeOf := map[string]string{"Open": "OpenTime", "Close": "CloseTime"}
 	var tsObj types.Object
 	if s.Type.Params != nil && len(s.Type.Params.List) > 0 && len(s.Type.Params.List[0].Names) > 0 {
-		tsObj = info.ObjectOf(s.Type.Params.List[0].Names[0])
+		tsObj = objOf(info, s.Type.Params.List[0].Names[0])
 	}
 	nAssign := map[string]int{}
 	s.walk(func(m ast.Node) bool {
@@ -524,7 +524,7 @@ func ruleCandleOutput(c *Ctx) {
 				all = append(all, f.Names...)
 			}
 			if len(all) == 2 {
-				p0, p1 = ser.Info.ObjectOf(all[0]), ser.Info.ObjectOf(all[1])
+				p0, p1 = objOf(ser.Info, all[0]), objOf(ser.Info, all[1])
 			}
 		}
 		so2, ok2 := order(ser, func(e ast.Expr) bool { return p0 != nil && identObj(ser.Info, e) == p0 }, func(e ast.Expr) bool { return p1 != nil && identObj(ser.Info, e) == p1 })
@@ -943,7 +943,7 @@ func ruleTimeframeTables(c *Ctx) {
 	okCmp := false
 	var tsObj types.Object
 	if ps := iw.Type.Params.List; len(ps) > 0 && len(ps[0].Names) > 0 {
-		tsObj = iw.Info.ObjectOf(ps[0].Names[0])
+		tsObj = objOf(iw.Info, ps[0].Names[0])
 	}
 	iw.walk(func(m ast.Node) bool {
 		check := func(x, y ast.Expr) {
@@ -1151,4 +1151,93 @@ func ruleQueryableDivides(c *Ctx) {
 
 	c.reportHits(rule, s, "returned-timeframe-divides-duration", r, "a timeframe of the table is returned only behind `duration % thatTimeframe.Duration == 0`", "a timeframe that does not divide the candle duration can be chosen for the query (windows then straddle base records)")
 	c.Check(sameIdx, rule, s.Name, "tested-member-is-returned-member", c.P.Pos(s.Body.Pos()), "the member whose duration was tested is the member that is returned")
+}
+
+// R31.4 — calendar windows are computed on the calendar: in the suffix-specific (calendar)
+// branches of Truncate and Ceil a boundary is built with time.Date / AddDate from date fields,
+// never by adding a fixed duration to an instant. A local day lasts 23 or 25 hours when daylight
+// saving starts or ends, so `x.Add(Day)` lands in the same calendar day (window end not after
+// the timestamp) or skips one.
+func ruleCalendarBranchesUseCalendar(c *Ctx) {
+	const rule = "R31.4"
+	for _, key := range []string{"(*utils.CandleDuration).Truncate", "(*utils.CandleDuration).Ceil"} {
+		s := c.S(rule, key)
+		if s == nil {
+			continue
+		}
+		info := s.Info
+		const fld = "utils.CandleDuration.suffix"
+		// calendar branch bodies: case clauses of a switch on the suffix (non-default) and
+		// if-bodies guarded by `suffix == "X"`
+		type branch struct {
+			sfx  string
+			body []ast.Stmt
+			pos  token.Pos
+		}
+		var brs []branch
+		for _, b := range s.bodies() {
+			walkAll(b, func(m ast.Node) bool {
+				switch x := m.(type) {
+				case *ast.SwitchStmt:
+					if x.Tag != nil && fieldKey(info, x.Tag) == fld {
+						for _, cc := range x.Body.List {
+							cl := cc.(*ast.CaseClause)
+							var names []string
+							for _, e := range cl.List {
+								if v, ok := constString(info, e); ok {
+									names = append(names, v)
+								}
+							}
+							if len(names) > 0 {
+								brs = append(brs, branch{strings.Join(names, ","), cl.Body, cl.Pos()})
+							}
+						}
+					}
+				case *ast.IfStmt:
+					if b, ok := isCompare(x.Cond, token.EQL); ok {
+						var v string
+						var isS bool
+						if fieldKey(info, b.X) == fld {
+							v, isS = constString(info, b.Y)
+						} else if fieldKey(info, b.Y) == fld {
+							v, isS = constString(info, b.X)
+						}
+						if isS {
+							brs = append(brs, branch{v, x.Body.List, x.Pos()})
+						}
+					}
+				}
+				return true
+			})
+		}
+		c.Floor(rule, s.Name, "calendar branches", len(brs), 2)
+		for _, br := range brs {
+			var bad ast.Node
+			nDate := 0
+			for _, st := range br.body {
+				walkAll(st, func(m ast.Node) bool {
+					cx, ok := m.(*ast.CallExpr)
+					if !ok {
+						return true
+					}
+					switch CalleeName(info, cx) {
+					case "(time.Time).Add", "(time.Time).Truncate", "(time.Time).Round":
+						if bad == nil {
+							bad = cx
+						}
+					case "time.Date", "(time.Time).AddDate":
+						nDate++
+					}
+					return true
+				})
+			}
+			construct := "calendar-branch:" + br.sfx
+			if bad != nil {
+				c.Violate(rule, s.Name, construct, c.P.Pos(bad.Pos()),
+					"the window boundary of suffix "+br.sfx+" is derived by adding/truncating a fixed duration ("+types.ExprString(bad.(ast.Expr))+"): on the 23/25-hour day of a daylight-saving change the result is not the next/previous local midnight (the window end can be at or before the timestamp); build the boundary from date fields with time.Date / AddDate", nil)
+			} else {
+				c.Hold(rule, s.Name, construct, c.P.Pos(br.pos), fmt.Sprintf("boundary built from calendar fields (%d time.Date/AddDate call(s)), no fixed-duration arithmetic", nDate))
+			}
+		}
+	}
 }
